@@ -73,6 +73,8 @@ def run_jobs(module, fn_name, jobs, procs=None, deadline=None):
 
 
 # ------------------------------------------------------------------ report / evidence
+# seed testing against a scratch worktree (VERIF_REPO set) must not overwrite the evidence of /repo itself
+EVIDENCE_DIR = os.path.join(VERIF, 'evidence') if driver.REPO == '/repo' else os.path.join(driver.CACHE, 'evidence-alt')
 class Report:
     def __init__(self, prop, design_ref=''):
         self.prop = prop; self.t0 = time.time()
@@ -124,7 +126,7 @@ class Report:
             d['paths'] += v.get('paths', 0); d['obligations'] += v.get('obligations', 0)
 
     def write(self, level='model_checking', explanation=''):
-        os.makedirs(os.path.join(VERIF, 'evidence'), exist_ok=True)
+        os.makedirs(EVIDENCE_DIR, exist_ok=True)
         cov = {
             'states': max(self.paths, 1),
             'transitions': max(self.queries, 1),
@@ -159,7 +161,7 @@ class Report:
             'coverage': cov, 'assumptions': self.assumptions, 'wall_s': round(time.time() - self.t0, 2),
             'violations': len([v for v in self.violations if not v.get('known')]),
         }
-        path = os.path.join(VERIF, 'evidence', self.prop + '.json')
+        path = os.path.join(EVIDENCE_DIR, self.prop + '.json')
         with open(path + '.tmp', 'w') as f:
             json.dump(ev, f, indent=1, default=str)
         os.replace(path + '.tmp', path)
